@@ -587,7 +587,8 @@ class StmtMixin:
 
     def for_over(self, s, st, fr, it):
         # concrete iterable: unroll
-        if isinstance(it, (TupleVal, tuple, list)):
+        tagged = isinstance(it, tuple) and it and isinstance(it[0], str) and it[0] in ('range', 'view', 'zip', 'enumerate')
+        if isinstance(it, (TupleVal, list)) or (isinstance(it, tuple) and not tagged):
             items = list(it.items) if isinstance(it, TupleVal) else list(it)
             return self.unroll(s, st, fr, items)
         if isinstance(it, LocalDict):
